@@ -270,8 +270,8 @@ int main() {
             if (f.size() == 2 && f[0] == "split") out = runSplit(unhex(f[1]));
             else if (f.size() >= 2 && f[0] == "data" && (f.size() - 2) % 3 == 0) out = runData(f);
             else if (f.size() == 2 && f[0] == "loc") out = runLoc(f[1]);
-            else if (f.size() == 4 && f[0] == "refs") out = runRefs(f[1], unhex(f[2]), unhex(f[3]));
-            else if (f.size() == 4 && f[0] == "dump") out = runDump(f[1], unhex(f[2]), unhex(f[3]));
+            else if (f.size() >= 4 && f[0] == "refs") out = runRefs(f[1], unhex(f[2]), unhex(f[3]));
+            else if (f.size() >= 4 && f[0] == "dump") out = runDump(f[1], unhex(f[2]), unhex(f[3]));
         } catch (const std::exception& e) {
             out = std::string("exception ") + e.what();
         }
